@@ -19,7 +19,7 @@ PrimDom(p) ==
     [] p = "float32" -> {Z4, <<0, 0, 128, 63>>, <<0, 0, 192, 127>>, <<0, 0, 128, 255>>, <<1, 0, 0, 0>>}
     [] p = "int64"   -> {Z8, <<1, 0, 0, 0, 0, 0, 0, 0>>, <<255, 255, 255, 255, 255, 255, 255, 255>>, <<0, 0, 0, 0, 0, 0, 0, 128>>}
     [] p = "uint64"  -> {Z8, <<1, 0, 0, 0, 0, 0, 0, 0>>, <<255, 255, 255, 255, 255, 255, 255, 255>>}
-    [] p = "float64" -> {Z8, <<0, 0, 0, 0, 0, 0, 240, 63>>, <<0, 0, 0, 0, 0, 0, 248, 127>>, <<0, 0, 0, 0, 0, 0, 240, 127>>, <<1, 0, 0, 0, 0, 0, 0, 0>>}
+    [] p = "float64" -> {Z8, <<0, 0, 0, 0, 0, 0, 240, 63>>, <<1, 0, 0, 0, 0, 0, 248, 127>>, <<0, 0, 0, 0, 0, 0, 240, 127>>, <<1, 0, 0, 0, 0, 0, 0, 0>>}
     [] p = "byte"    -> {<<0>>, <<1>>, <<255>>}
     [] p = "string"  -> {<<>>, <<97>>, <<97, 98, 99, 100>>, <<255, 0>>, <<226, 130, 172, 34, 92, 10>>} \cup LongStrings
     [] OTHER         -> BOOLEAN
